@@ -130,12 +130,72 @@ class Eval(object):
 
     def accepted_body(self, f, K, depth):
         """A for body of f evaluated with dynamic type K: set of (value, why)"""
-        e = ret_expr(f)
-        if e is None:
-            raise AnalysisBroken("matches_flag %s is not a single return" % facts.loc(f))
         if len(f["params"]) != 1:
             raise AnalysisBroken("matches_flag %s: unexpected signature" % facts.loc(f))
-        return self.accepted_expr(f, e, K, depth)
+        e = ret_expr(f)
+        if e is not None:
+            try:
+                return self.accepted_expr(f, e, K, depth)
+            except AnalysisBroken:
+                pass
+        # any other spelling (early returns, named bool locals, swapped operands, != ...): the body is a pure function of
+        # the flag, so it is EXECUTED for every value of PDUType (finite evaluation)
+        return self.accepted_eval(f, K, depth)
+
+    def flag_domain(self):
+        en = self.db.enums.get("Tins::PDU::PDUType")
+        if not en:
+            raise AnalysisBroken("enum PDU::PDUType not in the database")
+        return sorted(set(x["v"] for x in en["enumerators"]))
+
+    def eval_flag(self, f, v, K, depth):
+        from vlib import ieval
+        if depth > 8:
+            raise AnalysisBroken("matches_flag recursion too deep at %s" % facts.loc(f))
+        pvar = f["params"][0]["var"]
+        env = {pvar: v}
+
+        def tf(n):
+            if n["k"] != "CXXMemberCallExpr":
+                return None
+            if n.get("cname") == "matches_flag" and len(n["c"]) == 2:
+                av = ieval.ev(f, n["c"][1], env)
+                me = strip(n["c"][0])
+                obj = strip(me["c"][0]) if me.get("c") else None
+                if obj is not None and obj["k"] == "CXXThisExpr" and me.get("qualified"):
+                    g = self.db.fn(n["callee"])
+                    if g is None:
+                        raise AnalysisBroken("body of %s not in database" % n["callee"])
+                    return 1 if self.eval_flag(g, av, K, depth + 1) else 0
+                T = self.member_record(f, n)
+                if T:
+                    return 1 if av in self.accepted(T, depth + 1) else 0
+                raise ieval.Unknown("matches_flag call on another object")
+            if n.get("cname") == "pdu_type" and len(n["c"]) == 1:
+                me = strip(n["c"][0])
+                obj = strip(me["c"][0]) if me.get("c") else None
+                if obj is not None and obj["k"] == "CXXThisExpr":
+                    pt = self.ptype(K)
+                    if len(pt) == 1:
+                        return list(pt)[0]
+                raise ieval.Unknown("pdu_type() with several possible values")
+            return None
+        env["__termfn__"] = tf
+        try:
+            r = ieval.run_body(f, f["body"], env)
+        except ieval.Unknown as ex:
+            raise AnalysisBroken("matches_flag body %s is outside the finite evaluator: %s" % (facts.loc(f), ex))
+        if r is None:
+            raise AnalysisBroken("matches_flag %s can fall off its end" % facts.loc(f))
+        return bool(r)
+
+    def accepted_eval(self, f, K, depth):
+        out = {}
+        dom = set(self.flag_domain()) | set(self.ptype(K))
+        for v in sorted(dom):
+            if self.eval_flag(f, v, K, depth):
+                out[v] = "%s: evaluates to true for flag %s" % (facts.loc(f), v)
+        return out
 
     def accepted_expr(self, f, e, K, depth):
         e = strip(e)
